@@ -232,6 +232,10 @@ func findTrakEnds(traks []*mp4.TrakBox, endTime, endTimescale uint64) (map[uint3
 	tos := make(map[uint32]*trakOut, len(traks))
 	for _, trak := range traks {
 		trackID := trak.Tkhd.TrackID
+		if _, ok := tos[trackID]; ok {
+			// the per-track state is keyed by track ID: two tracks with the same ID would share it
+			return nil, fmt.Errorf("track ID %d occurs more than once", trackID)
+		}
 		stbl := trak.Mdia.Minf.Stbl
 		tos[trackID] = &trakOut{
 			nextInChunkNr: 1,
